@@ -257,10 +257,12 @@ func (c *cubicSender) maybeIncreaseCwnd(
 			c.numAckedPackets = 0
 		}
 	} else {
-		c.congestionWindow = min(
+		// An acknowledgment never reduces the congestion window:
+		// the cubic target can lie below the current window, e.g. after the min RTT dropped.
+		c.congestionWindow = max(c.congestionWindow, min(
 			c.maxCongestionWindow(),
 			c.cubic.CongestionWindowAfterAck(ackedBytes, c.congestionWindow, c.rttStats.MinRTT(), eventTime),
-		)
+		))
 	}
 }
 
